@@ -373,7 +373,6 @@ mod real {
     pub struct Plan {
         /// byte offsets that are mutated (all of them for small files)
         pub positions: Vec<usize>,
-        pub n: usize,
         pub multi: usize,
     }
 
@@ -404,7 +403,7 @@ mod real {
                 }
                 set.into_iter().collect()
             };
-            Plan { positions, n, multi }
+            Plan { positions, multi }
         }
         pub fn trunc_cases(&self) -> usize {
             self.positions.len() + 1
